@@ -296,6 +296,8 @@ pub const CATALOGUE: &[Fault] = &[
     f("argt-user-sub:byref-array-element", "ZSb ZM&(1), 1", &["DIM ZM&(3)"], ATM, S | H),
     f("argt-user-fn:byref-array-element", "ZQ% = ZFn%(1, ZM#(2))", &["DIM ZM#(3)"], ATM, S | H),
     f("argt-user-sub:byref-record-field", "ZSb 1, ZR.ZS", DIM_ZR, ATM, S | H | T),
+    f("undefined-sub:declared-only", "ZNoSub2 1", &["DECLARE SUB ZNoSub2 (ZP%)"], SND, S | MO),
+    f("undefined-sub:declared-only-call", "CALL ZNoSub2(1)", &["DECLARE SUB ZNoSub2 (ZP%)"], SND, S | MO),
     // ---- syntax: string literal without closing quote
     f("syntax-string:print", "PRINT \"abc", &[], P, S | TAIL),
     f("syntax-string:assign", "ZQ$ = \"abc", &[], P, S | TAIL),
@@ -783,6 +785,13 @@ fn build(tape: &[u32], with_calls: bool) -> BuildOut {
             Stmt::Assign(ln.clone(), Expr::Un(UnOp::Neg, Box::new(Expr::Lit(Lit::Whole(1))))),
             Stmt::Assign(lt, Expr::BuiltIn { name: "LEFT$".into(), args: vec![Expr::Lit(Lit::Str("abc".into())), Expr::Load(ln)], ty: Ty::Str }),
         ];
+        let body = if (which >> 5) % 2 == 0 {
+            body
+        } else {
+            // two calls deep: the failing statements sit in a second SUB called by the first
+            prog.procs.push(Proc { name: "ZHS2".into(), ret: None, params: vec![], is_static: false, body, vars: vec![zn.clone(), zt.clone()], result_var: None });
+            vec![Stmt::CallSub(prog.procs.len() - 1, vec![])]
+        };
         prog.procs.push(Proc { name: "ZHS".into(), ret: None, params: vec![], is_static: false, body, vars: vec![zn, zt], result_var: None });
         let callee = prog.procs.len() - 1;
         let pre = vec![Stmt::OnErrorGoto(Some("ZH2".into())), Stmt::CallSub(callee, vec![]), Stmt::Label("ZH3".into()), Stmt::OnErrorGoto(None)];
